@@ -113,6 +113,8 @@ pub fn add_fault(kind: &str, skip: u64) {
 
 /// When set, every create / write the CALLER thread performs on a chunk file is followed
 /// by a directory snapshot in the log (`c snap ...`): crash points inside API calls.
+/// n > 0: the n-th chunk-file creation of the caller thread from now on fails with ENOSPC.
+pub static CFAULT_CREATE: std::sync::atomic::AtomicU64 = std::sync::atomic::AtomicU64::new(0);
 pub static AUTO_SNAP: std::sync::atomic::AtomicBool = std::sync::atomic::AtomicBool::new(false);
 
 fn auto_snap() {
@@ -125,6 +127,16 @@ fn auto_snap() {
     };
     let snap = crate::proto::disk_str(&dir);
     logline(format!("c snap {}", snap));
+}
+
+/// Switch observation (logging, gating, faults) off and on again, e.g. while a second store
+/// on another directory runs in this process.
+pub fn set_enabled(on: bool) {
+    let mut g = CTL.lock().unwrap();
+    if let Some(c) = g.as_mut() {
+        c.enabled = on;
+    }
+    CV.notify_all();
 }
 
 pub fn set_gate(armed: bool) {
@@ -351,7 +363,18 @@ pub unsafe extern "C" fn open64(path: *const c_char, flags: c_int, mode: libc::m
         || {
             let p = CStr::from_ptr(path).to_string_lossy().to_string();
             let what = chunk_of_path(&p);
-            let fd = raw();
+            // injected failure of a chunk-file creation on the caller thread (disk full)
+            let inject = what.as_deref().map(|id| id != "LOCK").unwrap_or(false)
+                && flags & libc::O_CREAT != 0
+                && flags & libc::O_EXCL != 0
+                && role() == "c"
+                && CFAULT_CREATE.fetch_update(std::sync::atomic::Ordering::SeqCst, std::sync::atomic::Ordering::SeqCst, |v| if v > 0 { Some(v - 1) } else { None }) == Ok(1);
+            let fd = if inject {
+                set_errno(libc::ENOSPC);
+                -1
+            } else {
+                raw()
+            };
             if let Some(id) = what {
                 let creat = flags & libc::O_CREAT != 0 && flags & libc::O_EXCL != 0;
                 let mut g = CTL.lock().unwrap();
